@@ -233,7 +233,11 @@ func c13Case(c *core.Ctx) {
 		case demand >= math.Max(mn0, mn1) && demand <= math.Min(mx0, mx1):
 			tag("demand-met")
 			if math.Abs(s.AvgOutflow-demand) > rtol {
-				c.Violate("release-not-demand", model, fmt.Sprintf("timestep %d: demand %v lies between the release curves at both ends of the sub-step (%v..%v and %v..%v) but the release is %v", ti, demand, mn0, mx0, mn1, mx1, s.AvgOutflow))
+				nextDemand := math.NaN()
+				if ti+1 < T {
+					nextDemand = in[iI("demand")][ti+1]
+				}
+				c.Violate("release-not-demand", model, fmt.Sprintf("timestep %d: demand %v lies between the release curves at both ends of the sub-step (%v..%v and %v..%v) but the release is %v [sub-step dt=%v, accepted so far in this timestep %v of %v s, next timestep's demand %v]", ti, demand, mn0, mx0, mn1, mx1, s.AvgOutflow, s.Dt, accDt, dt, nextDemand))
 			}
 		case demand > math.Max(mx0, mx1):
 			tag("demand-above-max")
@@ -246,7 +250,9 @@ func c13Case(c *core.Ctx) {
 				c.Violate("spill-below-full-supply", model, fmt.Sprintf("timestep %d: spill %v m3 with volume %v not above the full-supply volume %v", ti, s.Spill, vEnd, vmax))
 			}
 		}
-		if accDt >= dt*(1-1e-9) {
+		// a timestep ends with the accepted sub-step that leaves the volume the model reports for it
+		// (sub-steps may be arbitrarily short slivers, so the time sum alone cannot find the boundary)
+		if accDt >= dt*(1-1e-6) && core.BitEq(s.Vol1, V[ti]) {
 			if math.Abs(accDt-dt) > 1e-6*dt {
 				c.Violate("substeps-do-not-sum", model, fmt.Sprintf("timestep %d: accepted sub-steps sum to %v s, timestep is %v s", ti, accDt, dt))
 			}
@@ -262,6 +268,9 @@ func c13Case(c *core.Ctx) {
 			}
 			ti++
 			accDt, accOut, accRain, accEvap, nAcc = 0, 0, 0, 0, 0
+		} else if accDt > dt*(1+1e-6) {
+			c.Violate("substeps-do-not-sum", model, fmt.Sprintf("timestep %d: accepted sub-steps add up to %v s (> timestep %v s) without reaching the reported volume %v", ti, accDt, dt, V[ti]))
+			break
 		}
 	}
 	if len(subs) > 0 && ti != T && len(c.Res.Violations) == 0 {
